@@ -3430,4 +3430,5 @@ class SimPersistent(EventBasedTimestampWeightedTally, SimStatisticsInterface):
         elif event.event_type == ReplicationInterface.WARMUP_EVENT:
             self.initialize()
         elif event.event_type == ReplicationInterface.END_REPLICATION_EVENT:
-            self.end_observations(self.simulator.simulator_time)
+            # float(...) turns a Duration clock into its si-value, as for the data
+            self.end_observations(float(self.simulator.simulator_time))
